@@ -53,6 +53,9 @@ type SolveOpts struct {
 	KeepQueries bool
 	MaxRetry    int
 	noParts     bool
+	// ExpectedToFail names obligations recorded as known findings: they are still attempted (a finding
+	// that has been repaired shows up as proved) but get no second chance and no conjunct search.
+	ExpectedToFail func(name string) bool
 }
 
 func runSolver(ctx context.Context, s solverSpec, file string, timeoutMs int) (answer string, out string) {
@@ -114,6 +117,9 @@ func Discharge(obls []*Obligation, opts SolveOpts) []*Outcome {
 		if o.Result == "proved" || o.Result == "refuted" || o.Obl.MustFail || retried >= opts.MaxRetry {
 			continue
 		}
+		if opts.ExpectedToFail != nil && opts.ExpectedToFail(o.Obl.Name) {
+			continue
+		}
 		retried++
 		ropts := opts
 		ropts.TimeoutMs = opts.TimeoutMs * 3
@@ -131,7 +137,7 @@ func Discharge(obls []*Obligation, opts SolveOpts) []*Outcome {
 
 func dischargeOne(i int, o *Obligation, opts SolveOpts) *Outcome {
 	res := dischargeGoal(i, o, o.Goal, "", opts)
-	if res.Result == "proved" || o.MustFail || len(o.Parts) < 2 || res.Result == "refuted" || opts.noParts {
+	if res.Result == "proved" || o.MustFail || len(o.Parts) < 2 || res.Result == "refuted" || opts.noParts || (opts.ExpectedToFail != nil && opts.ExpectedToFail(o.Name)) {
 		return res
 	}
 	// fallback: prove the conjuncts one by one
